@@ -69,14 +69,14 @@ func init() {
 	})
 	register(&Prop{
 		ID:    "C11",
-		Rules: []*Rule{scoped(rGrpcFlow, "the gRPC code of an error is the same after the interceptors as after a direct transfer", nil), rProbeOrder, rOSPredicate, rFramePerEntry, rCodec, rPayloadDecoder, rGenericPath, rListRoundTrip, rDecline, rRegType, rErrnoTable, rStackSlot, rStackWhole, rStackParse, rStackEmpty, rTreeRec, rOneParser, rSiblingGuard, rCodeGetter},
+		Rules: []*Rule{rMemo, scoped(rGrpcFlow, "the gRPC code of an error is the same after the interceptors as after a direct transfer", nil), rProbeOrder, rOSPredicate, rFramePerEntry, rCodec, rPayloadDecoder, rGenericPath, rListRoundTrip, rDecline, rRegType, rErrnoTable, rStackSlot, rStackWhole, rStackParse, rStackEmpty, rTreeRec, rOneParser, rSiblingGuard, rCodeGetter},
 		Explain: "Decides, for every registered type key, that each annotation field has a wire slot that the writer fills from that same field and the reader restores into that same field (payload members, positional safe details, message), that decoders rebuild the key's own type (so flag types recognised by Go type survive), that errno predicates travel in matching pairs, and that the printed-stack slot is re-parsed for the same key set by both stack accessors. " +
 			"NOT decided: equality of re-parsed frames (text parsing), tag values rendered through ValueStr, OS predicates on foreign platforms beyond the pairing.",
 		Trusted: []string{"go/ssa", "gogo/protobuf marshalling of the payload messages"},
 	})
 	register(&Prop{
 		ID: "C01",
-		Rules: []*Rule{scoped(rCmpGuard, "encoding and decoding never compare or hash error values of unknown dynamic type", func(_ *core.Ctx, k string) bool {
+		Rules: []*Rule{rPrefixCut, scoped(rCmpGuard, "encoding and decoding never compare or hash error values of unknown dynamic type", func(_ *core.Ctx, k string) bool {
 			return containsAny(k, "errbase.encode", "errbase.decode", "errbase.Encode", "errbase.Decode")
 		}), rGenericMsg, scoped(rEffect, "encoding and decoding are functions of their argument: no package-level memo in the codec path", func(_ *core.Ctx, k string) bool { return containsAny(k, "ncode", "ecode", "extractPrefix") }), rDecodeReadonly, rSpecialText, scoped(rCodec, "fields that Error() reads, and the cause", codecTextFields), rOpaque, rDecodeResult, rElide, rTreeRec, rRegType, rSep, scoped(rShape, "the opaque types (what an unknowing process renders)", func(_ *core.Ctx, k string) bool { return strings.Contains(k, "opaque") }), scoped(rWalkMulti, "the encoder walk", func(_ *core.Ctx, k string) bool { return containsAny(k, "EncodeError", "is a leaf for UnwrapOnce") }), rSiblingGuard, rLoopAlias, rWriteFaithful, rErrnoTable, scoped(rFormatArg, "encoders, decoders and the opaque types", func(_ *core.Ctx, k string) bool { return containsAny(k, ".decode", ".encode", "opaque") })},
 		Explain: "Decides the structural necessary conditions of text/shape preservation: writer/reader slot agreement for every field that Error() reads (R-CODEC), verbatim keep-and-re-emit of message, details, message type and causes by unknowing processes (R-OPAQUE-TRANSPORT), cause/branch recursion on both sides in index order with no branch dropped for any count (R-TREE-RECURSION, R-WALK-MULTI), decoders rebuilding the key's type (no drift after hop 1), one separator constant removed exactly (R-SEP), and Error()/formatter shape agreement. " +
@@ -92,7 +92,7 @@ func init() {
 	})
 	register(&Prop{
 		ID: "C04",
-		Rules: []*Rule{scoped(rProtocol, "UnwrapOnce - the dispatch between leaf and wrapper encoding - probes the single-cause protocols only", func(_ *core.Ctx, k string) bool { return strings.Contains(k, "UnwrapOnce") }), rGenericMsg, rDecodeReadonly, rReencodeStable, scoped(rEffect, "reading or forwarding an error never rewrites the details it stores from the wire", func(_ *core.Ctx, k string) bool {
+		Rules: []*Rule{rPrefixCut, scoped(rProtocol, "UnwrapOnce - the dispatch between leaf and wrapper encoding - probes the single-cause protocols only", func(_ *core.Ctx, k string) bool { return strings.Contains(k, "UnwrapOnce") }), rGenericMsg, rDecodeReadonly, rReencodeStable, scoped(rEffect, "reading or forwarding an error never rewrites the details it stores from the wire", func(_ *core.Ctx, k string) bool {
 			return containsAny(k, "SafeDetails", "details", "opaque", "ReportablePayload")
 		}), rOpaque, rDecodeResult, rWireMsg, rTreeRec, rRegType, rCodec, scoped(rShape, "the opaque types", func(_ *core.Ctx, k string) bool { return strings.Contains(k, "opaque") }), rSiblingGuard, rSep},
 		Explain: "Decides that opaque values keep and re-emit exactly what was received (message, details incl. payload Any, message type, causes - R-OPAQUE-TRANSPORT, R-TREE-RECURSION), that the wire message each registered encoder sends is what an unknowing receiver needs to rebuild Error() for the type's Error() shape (R-WIRE-MSG), and that a later knowing receiver rebuilds from payload/details (R-CODEC, R-REGTYPE). " +
